@@ -8,6 +8,7 @@ import (
 	"github.com/cosmos/cosmos-sdk/codec"
 	banktypes "github.com/cosmos/cosmos-sdk/x/bank/types"
 	"math/big"
+	"os"
 	"strings"
 	"time"
 
@@ -58,6 +59,8 @@ type Action struct {
 	Mode   int      `json:"mode,omitempty"`  // 0 DeliverTx, 1 CheckTx, 2 ReCheckTx
 	Pad    int      `json:"pad,omitempty"`   // extra bytes in the source description (size limit)
 	Twice  bool     `json:"twice,omitempty"` // the same message two times in one transaction
+	// AVS actions (kinds "avs*")
+	Avs *AvsAct `json:"avs,omitempty"`
 }
 
 func (a Action) String() string {
@@ -110,9 +113,20 @@ type Machine struct {
 	// native bank balance of every actor before the current step
 	nativeBefore []*big.Int
 	lastTx       []byte // bytes of the last price transaction built
+	bls          []sim.BLSKey
+	avsCommit    map[string]avsCommitRec // operator/task address/id -> what phase one committed to
+}
+
+type avsCommitRec struct {
+	SigNum  int64
+	SigID   uint64
+	SigMode int
+	BlsKey  int
 }
 
 const keyPoolExtra = 6
+
+var debugNotes = os.Getenv("VERIF_DEBUG_NOTES")
 
 // NewMachine builds world and chain and enters block 1.
 func NewMachine(cfg sim.Config, invs ...Invariant) (*Machine, error) {
@@ -199,6 +213,19 @@ func (m *Machine) Step(a Action) error {
 		m.label(a.Kind + ":ok")
 	} else {
 		m.label(a.Kind + ":fail")
+		if strings.HasPrefix(a.Kind, "avs") {
+			n := o.Note
+			if i := strings.Index(n, "message index: 0: "); i >= 0 {
+				n = n[i+18:]
+			}
+			if len(n) > 70 {
+				n = n[:70]
+			}
+			m.label("why:" + a.Kind + ":" + n)
+			if debugNotes != "" && strings.Contains(o.Note, debugNotes) {
+				fmt.Printf("DEBUGNOTE %s -> %.1800s\n", a.String(), o.Note)
+			}
+		}
 	}
 	for _, inv := range m.Inv {
 		if err := inv.After(m, &a, o); err != nil {
@@ -427,6 +454,9 @@ func (m *Machine) Apply(a *Action) (Outcome, error) {
 	case "setKey":
 		msg := &operatortypes.SetConsKeyReq{Address: m.W.Operators[a.Op].Bech32(), AvsAddress: m.W.AvsAddr, PublicKeyJSON: m.Keys[a.Key].Wrapped.ToJSON()}
 		return m.cosmos(m.W.Operators[a.Op], msg)
+	}
+	if strings.HasPrefix(a.Kind, "avs") {
+		return m.applyAvs(a)
 	}
 	return Outcome{}, fmt.Errorf("unknown action %q", a.Kind)
 }
